@@ -115,7 +115,7 @@ class Module:
         self.name = name
         self.path = path
         self.source = source
-        self.tree = _FlagCanon().visit(_Canon().visit(ast.parse(source, filename=path)))
+        self.tree = ast.parse(source, filename=path)      # canonicalised by Repo._load (generators first: that pass looks at all modules)
         self.lines = source.splitlines()
         # local name -> ('mod', modname) | ('sym', modname, symbol)
         self.imports: Dict[str, Tuple[str, ...]] = {}
@@ -251,6 +251,10 @@ class Repo:
                     self.modules[name] = Module(name, path, src)
                 except SyntaxError as e:
                     raise AnalysisError("cannot parse %s: %s" % (path, e))
+        from .gencanon import canon_generators
+        self.generators_rewritten = canon_generators([m.tree for m in self.modules.values()])
+        for m in self.modules.values():
+            m.tree = _FlagCanon().visit(_Canon().visit(m.tree))
         for m in self.modules.values():
             self._index_imports(m, m.tree.body, m.imports)
             self._index_defs(m)
